@@ -100,7 +100,10 @@ def draw_model(r, name):
         d = draw_model(r, "AD:" + name[4:])
         return {"name": name, "p": d["p"]}
     if name == "Composite":
-        return {"name": "AD:yeoh", "p": {"C10": round(mu / 2, 4), "C20": rf(r, -0.05, 0.05), "C30": rf(r, 0, 0.05), "bulk": bulk}}
+        d = {"name": "AD:yeoh", "p": {"C10": round(mu / 2, 4), "C20": rf(r, -0.05, 0.05), "C30": rf(r, 0, 0.05), "bulk": bulk}}
+        if r.random() < 0.6:
+            d["third"] = {"mu": rf(r, 0.1, 1.0), "lmbda": rf(r, 0.2, 2.0)}  # a & b & c
+        return d
     ad = {
         "AD:neo_hooke": {"mu": mu, "bulk": bulk},
         "AD:mooney_rivlin": {"C10": round(mu / 3, 4), "C01": round(mu / 6, 4), "bulk": bulk},
@@ -433,6 +436,8 @@ def run_point(doc, log):
         for key_ in POINT_STRESS_KEYS[spec["name"]]:
             if spec["p"].get(key_) is not None:
                 spec["p"][key_] = gen._scale(spec["p"][key_], doc["pscale"])
+        if spec.get("third"):
+            spec["third"] = {k_: gen._scale(v_, doc["pscale"]) for k_, v_ in spec["third"].items()}
         log.count("parameters-in-another-stress-unit")
     if doc.get("parallel"):
         spec["parallel"] = True
